@@ -58,6 +58,34 @@ def missing(prop, family, K, fid, what="function"):
               "anchor-missing: %s `%s` named by the spec does not exist in configuration %s" % (what, fid, K.config))
 
 
+# ---------------------------------------------------------------- T rows (content dependence)
+def t_row(K, prop, fid, soft=False, source_locals=(1,)):
+    """No branch of `fid` rejects its input (overflow kind / None) without depending on the input's bytes
+    (analysis/taint.py).  One obligation per function; the detail lists every offending branch."""
+    from . import taint
+    F = K.F
+    key = "%s:T:%s:%s:content-independent-rejection" % (prop, K.config, fid)
+    d = F.lookup(fid)
+    if d is None or d not in F.bodies:
+        if soft:
+            return Ob(key, prop, "T", K.config, fid, UNDECIDED, "internal helper `%s` does not exist as a separate function; not decided here" % fid)
+        return missing(prop, "T", K, fid)
+    taint.selfcheck()
+    B = taint.Body(F.bodies[d], list(source_locals))
+    st = B.stats()
+    found = B.content_independent_rejections()
+    loc = F.loc(d)
+    if found:
+        sites = "; ".join("%s: branch bb%d -> bb%d can only fail with %s" % (f[3], f[0], f[1], "/".join(f[2])) for f in found)
+        return Ob(key, prop, "T", K.config, fid, VIOLATED,
+                  "the decision of %d branch(es) depends on the input only through its length (neither data nor control flow "
+                  "from the bytes reaches it) and one side only rejects: %s - every input of such a length is refused whatever "
+                  "its digits, including zero-padded numerals of representable values" % (len(found), sites), loc, dict(analysed=st))
+    return Ob(key, prop, "T", K.config, fid, PROVED,
+              "every branch with a rejecting-only side depends on the bytes of the input (%d reachable blocks, %d branches, %d of them "
+              "content dependent)" % (st["blocks"], st["branches"], st["content_dependent_branches"]), loc, dict(analysed=st))
+
+
 # ---------------------------------------------------------------- F rows
 def f_row(K, prop, fid, term, tag="", negative=False):
     """Positive row  fid == term  (or negative row  fid =/= term)."""
